@@ -184,7 +184,10 @@ def run_parent(args) -> int:
         out = os.path.join(WORK, f"{tagname}.{i}.json")
         if os.path.exists(out):
             os.remove(out)
-        cmd = [sys.executable, "-m", "vmon.runner", prop, "--tier", tier, "--seed", str(seed),
+        # every fourth shard runs the interpreter with -O (assert statements compiled away, __debug__ False): what the
+        # library answers must not depend on it
+        opt = ["-O"] if i % 4 == 1 and os.environ.get("VERIF_OPTIMIZE", "1") != "0" else []
+        cmd = [sys.executable, *opt, "-m", "vmon.runner", prop, "--tier", tier, "--seed", str(seed),
                "--shard", str(i), "--nshards", str(nshards), "--out", out]
         errf = open(os.path.join(WORK, f"{tagname}.{i}.err"), "w")
         # every shard runs under its own hash seed: set/dict iteration order is a configuration dimension of
@@ -369,6 +372,7 @@ def run_parent(args) -> int:
         "inconclusive_reasons": inconclusive,
         "shards": nshards,
         "hash_seeds": "one PYTHONHASHSEED per shard: (VERIF_SEED*17 + shard) mod 4096",
+        "interpreter_modes": "shards 1,5,9,13 run under python -O; shards 3,7,11,15 with the root logger at DEBUG",
         "repo": REPO,
     }
     cov.update(extras)
